@@ -442,7 +442,7 @@ class _Inliner:
                     ne0 = dict(e0, args=nargs)
                     return r[0] + [tdecl, dict(s, e=ne0)]
             pre, ne = self.nested(s.get('e'), stack)
-            return pre + [dict(s, e=ne)] if pre else [s]
+            return pre + [dict(s, e=ne)] if (pre or ne is not s.get('e')) else [s]
         if k == 'return':
             e = SX.strip(s.get('e'))
             h = self.callee(e, stack)
@@ -457,7 +457,7 @@ class _Inliner:
                     return r[0] + [dict(s, e=r[1])]
             if SX.is_node(s.get('e')):
                 pre, ne = self.nested(s['e'], stack)
-                return pre + [dict(s, e=ne)] if pre else [s]
+                return pre + [dict(s, e=ne)] if (pre or ne is not s.get('e')) else [s]
             return [s]
         if k == 'decls':
             out = []
@@ -509,6 +509,7 @@ class _Inliner:
                                 out.append(dict(s, d=cur))
                                 cur = []
                             out.extend(pre)
+                        if pre or ni is not init:
                             nv = dict(v, init=ni)
                 cur.append(nv)
             if cur:
@@ -524,7 +525,16 @@ class _Inliner:
             if isinstance(n, list):
                 nl = [rec(x) for x in n]
                 return nl if any(a is not b for a, b in zip(nl, n)) else n
-            if not isinstance(n, dict) or n.get('k') == 'lambda':
+            if not isinstance(n, dict):
+                return n
+            if n.get('k') == 'lambda':
+                # statements of a closure body are normalised like any other statements (new helpers called from a deleter or a
+                # callback are inlined there too)
+                if self.only is not None and SX.is_node(n.get('body')) and n['body'].get('k') == 'block':
+                    before = self.count
+                    nb_ = self.stmts(n['body']['body'], stack, self.depth - len(stack))
+                    if self.count != before:
+                        return dict(n, body=dict(n['body'], body=nb_))
                 return n
             if n.get('k') in ('call', 'mcall'):
                 h = self.callee(n, stack)
@@ -665,7 +675,8 @@ def _writes_of(s):
             ptypes = None
             if n['k'] == 'call' and (n.get('callee') or '').split('<')[0] in _STD_BYVALUE:
                 continue
-            if n['k'] == 'construct' and (n.get('type') or '').startswith(('std::basic_string', 'std::string', 'std::complex', 'std::vector')):
+            if n['k'] == 'construct' and (n.get('type') or '').startswith(('std::basic_string', 'std::string', 'std::complex', 'std::vector', 'std::shared_ptr', 'std::unique_ptr',
+                                                                            'std::weak_ptr', 'std::pair', 'std::optional')):
                 continue
             if n['k'] == 'mcall' and (n.get('callee') or '').startswith('std::') and (n.get('callee') or '').split('::')[-1] not in ('swap', 'getline', 'read', 'merge', 'splice', 'extract'):
                 continue      # standard container / string member functions take their arguments by value or const reference
@@ -695,7 +706,7 @@ def _writes_of(s):
             for j_, a_ in enumerate(SX.real_args(n) if n['k'] in ('call', 'mcall') else (n.get('args') or [])):
                 a_ = SX.strip(a_)
                 if SX.is_node(a_) and a_.get('k') == 'ref' and a_.get('kind') in ('var', 'param') and not (a_.get('t') or '').startswith('const'):
-                    if ptypes is not None and all((not pt[j_].endswith(('&', '*'))) or pt[j_].startswith('const') for pt in ptypes):
+                    if ptypes is not None and all((not pt[j_].endswith('&')) or pt[j_].startswith('const') for pt in ptypes):
                         continue
                     ws.add(('arg', a_.get('id')))
     return ws
